@@ -800,8 +800,8 @@ package loadbalancer
 //@ func (*LoadBalancer).AddBackend
 //@   props C11 C05 C03 C12 C01 C02
 //@   requires adminOK(lb) && namesUnique(lb) && poolNonNil(lb) && sLen(lb.strategy) < 2147483647
-//@   requires 0 <= lb.config.Server.Timeouts.BackendDial && lb.config.Server.Timeouts.BackendDial < 8589934592 && 0 <= lb.config.Server.Timeouts.BackendRead
-//@             && lb.config.Server.Timeouts.BackendRead < 8589934592 && 0 <= lb.config.Server.Timeouts.BackendIdle && lb.config.Server.Timeouts.BackendIdle < 8589934592
+//@   requires 0 <= lb.config.Server.Timeouts.BackendDial && lb.config.Server.Timeouts.BackendDial <= 9223372036 && 0 <= lb.config.Server.Timeouts.BackendRead
+//@             && lb.config.Server.Timeouts.BackendRead <= 9223372036 && 0 <= lb.config.Server.Timeouts.BackendIdle && lb.config.Server.Timeouts.BackendIdle <= 9223372036
 //@   ghost before AddBackend :: lastDialTimeout := dialTimeout
 //@   ghost before AddBackend :: lastHeaderTimeout := transport.ResponseHeaderTimeout
 //@   ghost before AddBackend :: lastIdleTimeout := transport.IdleConnTimeout
@@ -1010,8 +1010,8 @@ package loadbalancer
 //@   props C18
 //@   requires lb != nil && cfg != nil
 //@   modifies lb.rateLimiter
-//@ pred cfgBreakerInRange(c *config.Config) := 0 <= c.CircuitBreaker.IntervalSeconds && c.CircuitBreaker.IntervalSeconds < 8589934592
-//@      && 0 <= c.CircuitBreaker.TimeoutSeconds && c.CircuitBreaker.TimeoutSeconds < 8589934592
+//@ pred cfgBreakerInRange(c *config.Config) := 0 <= c.CircuitBreaker.IntervalSeconds && c.CircuitBreaker.IntervalSeconds <= 9223372036
+//@      && 0 <= c.CircuitBreaker.TimeoutSeconds && c.CircuitBreaker.TimeoutSeconds <= 9223372036
 //@ func (*LoadBalancer).setupCircuitBreaker
 //@   props C18
 //@   requires lb != nil && cfg != nil && cfgBreakerInRange(cfg)
@@ -1022,7 +1022,7 @@ package loadbalancer
 //@ func createHealthChecker
 //@   props C04 C02
 //@   inline
-//@   requires cfg != nil && 0 <= cfg.HealthChecks.Passive.UnhealthyTimeout && cfg.HealthChecks.Passive.UnhealthyTimeout < 8589934592
+//@   requires cfg != nil && 0 <= cfg.HealthChecks.Passive.UnhealthyTimeout && cfg.HealthChecks.Passive.UnhealthyTimeout <= 9223372036
 //@   ensures result != nil
 //@   ensures an_ejection_has_a_positive_window: cfg.HealthChecks.Active.Enabled || cfg.HealthChecks.Passive.Enabled ==> result.passiveTimeout > 0
 // C19/C12: Stop waits on healthCheckWg while the checker goroutine Adds one probe per backend per tick. sync.WaitGroup
@@ -1036,8 +1036,8 @@ package loadbalancer
 //@   ensures the_checker_is_a_member_of_the_group_it_adds_to: lb.healthChecks.activeEnabled ==> lb.healthCheckWg.n == old(lb.healthCheckWg.n) + 1
 //@   modifies lb.healthCheckWg.n
 
-//@ pred cfgTimeoutsInRange(c *config.Config) := 0 <= c.Server.Timeouts.BackendDial && c.Server.Timeouts.BackendDial < 8589934592 && 0 <= c.Server.Timeouts.BackendRead
-//@      && c.Server.Timeouts.BackendRead < 8589934592 && 0 <= c.Server.Timeouts.BackendIdle && c.Server.Timeouts.BackendIdle < 8589934592
+//@ pred cfgTimeoutsInRange(c *config.Config) := 0 <= c.Server.Timeouts.BackendDial && c.Server.Timeouts.BackendDial <= 9223372036 && 0 <= c.Server.Timeouts.BackendRead
+//@      && c.Server.Timeouts.BackendRead <= 9223372036 && 0 <= c.Server.Timeouts.BackendIdle && c.Server.Timeouts.BackendIdle <= 9223372036
 //@ func NewLoadBalancer
 //@   props C18
 //@   results lb, err
